@@ -5,6 +5,10 @@ INVARIANT IdempotentEval
 INVARIANT PathsServed
 PROPERTY NoRecompute
 PROPERTY EnvIndependent
+PROPERTY FailClean
+PROPERTY RejectClean
+PROPERTY DryRun
+PROPERTY DryRunPure
 CONSTRAINT PlanConstraint
 VIEW View
 CHECK_DEADLOCK FALSE
